@@ -17,12 +17,17 @@ ROUTER_NAMES = ["router", "rt", "xbar", "r", "noc_r", "sw"]
 
 def protocols(nettype, aw, rng, distinct_ids=True):
     if nettype == "axi":
-        return [
+        prots = [
             {"name": "axi_in", "protocol": "AXI4", "data_width": 64, "addr_width": aw,
              "id_width": rng.choice([3, 4, 5]) if distinct_ids else 4, "user_width": 1, "type_prefix": None},
             {"name": "axi_out", "protocol": "AXI4", "data_width": 64, "addr_width": aw,
              "id_width": rng.choice([1, 2, 6]) if distinct_ids else 2, "user_width": 1, "type_prefix": None},
         ]
+        if rng.random() < 0.08:
+            # the `type` label is legal (and without meaning) in an axi network
+            for p in prots:
+                p["type"] = rng.choice(["narrow", "wide"])
+        return prots
     return [
         {"name": "narrow_in", "type": "narrow", "protocol": "AXI4", "data_width": 64, "addr_width": aw,
          "id_width": rng.choice([4, 5]), "user_width": 1},
@@ -91,6 +96,8 @@ def mk_ranges(rng, alloc, count, is_array):
                 break
         if is_array:
             r = {"base": base, "size": size}
+            if rng.random() < 0.08:
+                r["idx"] = rng.randint(1, 3)       # ignored for arrays: element k takes slot k
         else:
             style = rng.choice(["base_size", "start_end", "start_size", "start_end_size", "base_size_idx"])
             if style == "base_size_idx" and base >= 3 * size:
@@ -207,6 +214,81 @@ def move_to_top(rng, cfg, eps):
         r["end"] = top
 
 
+# set by the runner: may descriptions switch the address table off (`use_id_table: false`)?
+ALLOW_NO_TABLE = False
+# set by the runner: sometimes give a router too few ports (rejected by floogen)
+SHORT_DEGREE = False
+# set by the runner: apply the spelling variations below (off for hand-built sweeps that need exact names)
+VARIATIONS = True
+
+
+def rename_nodes(cfg, mapping):
+    for r in cfg["routers"]:
+        r["name"] = mapping.get(r["name"], r["name"])
+    for e in cfg["endpoints"]:
+        e["name"] = mapping.get(e["name"], e["name"])
+    for c in cfg["connections"]:
+        for k in ("src", "dst"):
+            c[k] = mapping.get(c[k], c[k])
+
+
+def rename_protocols(cfg, mapping):
+    for p in cfg["protocols"]:
+        p["name"] = mapping.get(p["name"], p["name"])
+    for e in cfg["endpoints"]:
+        for k in ("mgr_port_protocol", "sbr_port_protocol"):
+            if e.get(k):
+                e[k] = [mapping.get(x, x) for x in e[k]]
+
+
+def post_variations(rng, cfg):
+    """other legal spellings of a description: none of them changes what floogen should build"""
+    if rng.random() < 0.08:
+        stem = rng.choice(["dma", "m", "axi_lite", "p0"])
+        if cfg["network_type"] == "axi":
+            rename_protocols(cfg, {"axi_in": stem + "_in", "axi_out": stem + "_out"})
+        else:
+            rename_protocols(cfg, {"narrow_in": stem + "_n_in", "narrow_out": stem + "_n_out",
+                                   "wide_in": stem + "_w_in", "wide_out": stem + "_w_out"})
+    if rng.random() < 0.08:
+        v = rng.choice(["default", "floo", None])
+        for p in cfg["protocols"]:
+            if v == "default":
+                p.pop("type_prefix", None)
+            else:
+                p["type_prefix"] = v
+    if rng.random() < 0.06:
+        # mixed-case names
+        cands = [r["name"] for r in cfg["routers"]] + [e["name"] for e in cfg["endpoints"]]
+        old = rng.choice(cands)
+        new = rng.choice([old.capitalize(), "main" + old.capitalize(), old.upper()])
+        if new not in cands:
+            rename_nodes(cfg, {old: new})
+    if rng.random() < 0.08:
+        # an address window on an endpoint without subordinate port is accepted and means nothing
+        cands = [e for e in cfg["endpoints"] if not e.get("sbr_port_protocol") and "addr_range" not in e]
+        if cands:
+            aw = cfg["protocols"][0]["addr_width"]
+            e = rng.choice(cands)
+            e["addr_range"] = {"base": rng.choice([0, 0x100, (1 << (aw - 1))]), "size": rng.choice([0x40, 0x1000])}
+    if SHORT_DEGREE and rng.random() < 0.05:
+        # a router with fewer ports than its links need: floogen refuses to build it
+        cands = [r for r in cfg["routers"] if "degree" in r]
+        if cands:
+            r = rng.choice(cands)
+            if rng.random() < 0.5 and r["degree"] > 1:
+                r["degree"] -= rng.choice([1, 2]) if r["degree"] > 2 else 1
+            else:
+                del r["degree"]
+    u = rng.random()
+    if u < 0.15:
+        cfg["routing"].pop("use_id_table", None)          # the default is the table
+    elif u < 0.20 and ALLOW_NO_TABLE:
+        cfg["routing"]["use_id_table"] = False
+        if cfg["routing"]["route_algo"] == "ID" and rng.random() < 0.8:
+            cfg["routing"]["addr_offset_bits"] = rng.choice([12, 16, 20])   # required in this mode
+
+
 def finish(rng, cfg, eps, routers, conns, shuffle=True):
     if not ensure_protocol_coverage(rng, eps, cfg["network_type"]):
         return None
@@ -219,6 +301,8 @@ def finish(rng, cfg, eps, routers, conns, shuffle=True):
     cfg["endpoints"] = eps
     cfg["routers"] = routers
     cfg["connections"] = conns
+    if VARIATIONS:
+        post_variations(rng, cfg)
     return cfg
 
 
@@ -255,6 +339,10 @@ def gen_star(rng, algo, nettype, k=None):
     return finish(rng, cfg, eps, [rt], conns)
 
 
+# set by sweeps that want the mirrored placement of the local endpoint array for sure
+MIRROR_LOCAL = False
+
+
 def mesh_parts(rng, algo, nettype, alloc, m, n, rname, sides=None, partial_local=False):
     """endpoints + connections of an m x n mesh named rname"""
     eps, conns = [], []
@@ -281,12 +369,17 @@ def mesh_parts(rng, algo, nettype, alloc, m, n, rname, sides=None, partial_local
     use_dirs = algo == "XY" or rng.random() < 0.6
     if use_dirs:
         c["dst_dir"] = "Eject"
-    if rng.random() < 0.25:
+    if not MIRROR_LOCAL and rng.random() < 0.25:
         # the same pairing written with descending ranges on both sides
         d = rng.randrange(2)
         for key in ("src_range", "dst_range"):
             lo, hi = c[key][d]
             c[key][d] = [hi, lo]
+    elif MIRROR_LOCAL or rng.random() < 0.1:
+        # mirrored placement: tile (x, y) sits on router (x0+lm-1-x, y0+ln-1-y)
+        for d in range(2):
+            lo, hi = c["dst_range"][d]
+            c["dst_range"][d] = [hi, lo]
     if rng.random() < 0.3:
         c = flip_conn(c)
     conns.append(c)
@@ -446,6 +539,70 @@ def gen_tree(rng, algo, nettype, tree=None):
         cc = {"src": rname, "dst": e, "src_lvl": 0}
         conns.append(cc if rng.random() < 0.6 else flip_conn(cc))
     return finish(rng, cfg, eps, [{"name": rname, "tree": tree}], conns)
+
+
+def gen_torus(rng, algo, nettype, m, n):
+    """an m x n mesh (ID/SRC) whose rows are closed to rings through their East/West boundary ports"""
+    aw = 48
+    cfg = base_cfg(rng, "torus", nettype, algo, aw)
+    alloc = AddrAlloc(rng, aw)
+    ep = mk_endpoint(rng, nettype, alloc, "tile", array=[m, n], force_role="dual")
+    conns = [{"src": "tile", "dst": "router", "src_range": [[0, m - 1], [0, n - 1]],
+              "dst_range": [[0, m - 1], [0, n - 1]], "dst_dir": "Eject"}]
+    for j in range(n):
+        conns.append({"src": "router", "src_idx": [m - 1, j], "src_dir": "East",
+                      "dst": "router", "dst_idx": [0, j], "dst_dir": "West"})
+    return finish(rng, cfg, [ep], [{"name": "router", "array": [m, n], "degree": 5}], conns, shuffle=False)
+
+
+def gen_chain_hub(rng, algo, nettype, m):
+    """a row of m routers whose two ends also meet in a separate hub router that serves a memory"""
+    aw = 48
+    cfg = base_cfg(rng, "hubring", nettype, algo, aw)
+    alloc = AddrAlloc(rng, aw)
+    ep = mk_endpoint(rng, nettype, alloc, "tile", array=[m], force_role="dual")
+    mem = mk_endpoint(rng, nettype, alloc, "mem", force_role="sbr")
+    conns = [{"src": "tile", "dst": "router", "src_range": [[0, m - 1]], "dst_range": [[0, m - 1], [0, 0]], "dst_dir": "Eject"},
+             {"src": "router", "src_idx": [0, 0], "src_dir": "West", "dst": "hub"},
+             {"src": "router", "src_idx": [m - 1, 0], "src_dir": "East", "dst": "hub"},
+             {"src": "mem", "dst": "hub"}]
+    return finish(rng, cfg, [ep, mem], [{"name": "router", "array": [m, 1], "degree": 5}, {"name": "hub"}],
+                  conns, shuffle=False)
+
+
+def gen_tree_bypass(rng, algo, nettype, fan):
+    """a two-level tree with one extra link between two siblings"""
+    aw = 48
+    cfg = base_cfg(rng, "bypass", nettype, algo, aw)
+    alloc = AddrAlloc(rng, aw)
+    leaf = mk_endpoint(rng, nettype, alloc, "tile", array=[fan], force_role="dual")
+    eps = [leaf]
+    conns = [{"src": "tile", "dst": "router", "src_range": [[0, fan - 1]], "dst_lvl": 1}]
+    for e in ["host", "dram"]:
+        eps.append(mk_endpoint(rng, nettype, alloc, e, force_role="dual"))
+        conns.append({"src": "router", "dst": e, "src_lvl": 0})
+    conns.append({"src": "router", "src_idx": [0, 0], "dst": "router", "dst_idx": [0, 1]})
+    return finish(rng, cfg, eps, [{"name": "router", "tree": [1, fan]}], conns, shuffle=False)
+
+
+def gen_overfull(rng, algo, nettype, degree=3):
+    """two routers in a row, not auto-connected; one of them has every port taken by an endpoint that
+    names its port, so the direction-less link between the routers finds no port there: floogen refuses"""
+    aw = 32
+    cfg = base_cfg(rng, "overfull", nettype, algo, aw)
+    alloc = AddrAlloc(rng, aw)
+    dirs = ["North", "East", "South", "West", "Eject"][:degree]
+    eps, conns = [], []
+    for k, nm in enumerate(["cpu", "mem"]):
+        eps.append(mk_endpoint(rng, nettype, alloc, nm, force_role="dual"))
+        conns.append({"src": nm, "dst": "router", "dst_idx": [0, 0], "dst_dir": ["North", "South"][k]})
+    for k, dr in enumerate(dirs):
+        nm = "io_" + "abcde"[k]
+        eps.append(mk_endpoint(rng, nettype, alloc, nm, force_role="dual"))
+        conns.append({"src": nm, "dst": "router", "dst_idx": [1, 0], "dst_dir": dr})
+    conns.append({"src": "router", "dst": "router", "src_idx": [0, 0], "dst_idx": [1, 0]})
+    return finish(rng, cfg, eps, [{"name": "router", "array": [2, 1], "auto_connect": False, "degree": degree}],
+                  conns, shuffle=False)
 
 
 def gen_deep_tree(rng, algo, nettype, tree):
